@@ -2,8 +2,9 @@
 from fractions import Fraction
 import spec as S
 from props.common import *
+from aval import AInt, AAgg
 
-LEVEL = 'other'
+LEVEL = 'proof'
 
 INTS = {'i8': (8, True), 'i16': (16, True), 'i32': (32, True), 'i64': (64, True), 'isize': (64, True),
         'u8': (8, False), 'u16': (16, False), 'u32': (32, False), 'u64': (64, False), 'usize': (64, False)}
@@ -70,7 +71,50 @@ def run(ctx):
                                    to_int_spec(pty, bits, signed), bits, exhaustive_limit=256 if pty.bits == 8 else 0)
                     tot += decided(st)
     ctx.require('C07 decided cells', tot, 500)
-    ctx.undecided['general_path'] = 'leading-bit search and guard/sticky rounding on the general path; the scale>=62 shift path of convert_p32bits_to_u64'
+    # R10: every non-zero integer / every non-zero real posit on rounding cells
+    import rules_rounding
+    ctx.rules.append('R10 rounding cells: integer->posit per (sign, leading-one position, rounding case); posit->integer per (sign, regime, exponent, rounding case at the units position)')
+    ncells = nproved = 0
+    zero_ok = zero_n = 0
+    from interp import Interp
+    I = Interp(prog)
+    for pty in PTYS:
+        for iname, (bits, signed) in INTS.items():
+            path = prog.inherent(pty.tykey, 'from_' + iname)
+            if path:
+                st = rules_rounding.check_int_to_posit(ctx, prog, 'R10', '%s::from_%s' % (pty.name, iname), path, bits, signed, pty, True)
+                ncells += st['cells']
+                nproved += st['proved']
+                zero_n += 1
+                o = I.run(path, [AInt.const(bits, signed, 0)])
+                r = rules_rounding.result_int(o.value) if o.kind == 'return' else None
+                if r is not None and r.is_const():
+                    if r.uval() == 0:
+                        zero_ok += 1
+                    else:
+                        ctx.finding('R10', '%s::from_%s' % (pty.name, iname), 'zero', 'the integer 0 converts to %#x, expected the posit zero' % r.uval(), {'function': path})
+            if iname in wide:
+                path = prog.inherent(pty.tykey, 'to_' + iname)
+                if path:
+                    st = rules_rounding.check_posit_to_int(ctx, prog, 'R10', '%s::to_%s' % (pty.name, iname), path, pty, bits, signed, True)
+                    ncells += st['cells']
+                    nproved += st['proved']
+                    zero_n += 1
+                    o = I.run(path, [AAgg(pty.tykey, [AInt.const(pty.bits, True, 0)])])
+                    r = rules_rounding.result_int(o.value) if o.kind == 'return' else None
+                    if r is not None and r.is_const():
+                        if r.uval() == 0:
+                            zero_ok += 1
+                        else:
+                            ctx.finding('R10', '%s::to_%s' % (pty.name, iname), 'zero', 'the posit zero converts to %#x, expected 0' % r.uval(), {'function': path})
+    ctx.count('zero_cells', zero_n)
+    ctx.count('zero_cells_decided', zero_ok)
+    ctx.require('C07 rounding cells', ncells, 20000)
+    complete = (ncells == nproved and zero_ok == zero_n)
+    if not complete:
+        ctx.notes.append('not every obligation was discharged in this run (%d/%d rounding cells, %d/%d zero cells): the verdict of this run is weaker than a proof' % (nproved, ncells, zero_ok, zero_n))
+    ctx.undecided['general_path'] = 'nothing when all cells are proved; undecided cells are counted above'
     ctx.notes.append('to_*(NaR) is excluded from the claim (the property leaves the convention open)')
-    return LEVEL, ('Saturation thresholds, small-value branches and sign handling of 30 from_* and 12 to_* functions decided per cell; '
-                   'from_i8/i16/isize/u8/u16/usize are analysed through their forwarding casts (inlined).')
+    return (LEVEL if complete else 'other'), ('Every integer of the ten source types and every real-valued posit pattern lies in a rounding cell (sign, leading-one position or regime/exponent, rounding situation; '
+                   'remaining bits symbolic) on which the returned bit-vector equals the posit-rule rounding of the integer, resp. the nearest integer (ties to even) clamped to the target type; '
+                   'zero separately. Saturation thresholds and small-value branches are additionally decided on interval cells (R2).')
